@@ -82,7 +82,7 @@ def norm_vjp(ans, x, ord=None, axis=None):
         if matrix_norm:
             if not (ord is None or ord == "fro" or ord == "nuc"):
                 raise NotImplementedError("Gradient of matrix norm not implemented for ord={}".format(ord))
-        elif not (ord is None or ord > 1):
+        elif not (ord is None or 1 < ord < float("inf")):
             raise NotImplementedError("Gradient of norm not implemented for ord={}".format(ord))
 
     if axis is None:
@@ -138,7 +138,7 @@ def norm_jvp(g, ans, x, ord=None, axis=None):
         if matrix_norm:
             if not (ord is None or ord == "fro" or ord == "nuc"):
                 raise NotImplementedError("Gradient of matrix norm not implemented for ord={}".format(ord))
-        elif not (ord is None or ord > 1):
+        elif not (ord is None or 1 < ord < float("inf")):
             raise NotImplementedError("Gradient of norm not implemented for ord={}".format(ord))
 
     if axis is None:
